@@ -203,22 +203,25 @@ Assignments(U, H, W, full) ==
 PathLap(p, a, b) == IF a = b THEN (IF p = 1 THEN 0 ELSE IF a = 1 \/ a = p THEN 1 ELSE 2)
                     ELSE IF Abs(a - b) = 1 THEN -1 ELSE 0
 RegObjs(objs) == { o \in 1 .. Len(objs) : objs[o].reg }
-HOf(objs, kinds) ==
+\* own[c] = object owning parameter c (computed once per layout)
+HOf(objs, kinds, own) ==
     [a \in 1 .. TotalP(objs) |-> [b \in 1 .. TotalP(objs) |->
-        LET oa == ObjOfP(objs, a) ob == ObjOfP(objs, b) IN
-        IF oa # ob \/ ~ objs[oa].reg THEN 0
-        ELSE (IF a = b THEN kinds[oa].z ELSE 0)
-             + kinds[oa].c * PathLap(objs[oa].p, a - OffP(objs, oa), b - OffP(objs, oa))]]
-FHOf(objs, kinds, M) ==
-    LET h == HOf(objs, kinds) IN
-    [a \in 1 .. TotalP(objs) |-> [b \in 1 .. TotalP(objs) |->
-        SumOver(1 .. NRows, LAMBDA t : M[t][a] * M[t][b]) + h[a][b]
-        + (IF a = b /\ ~ IsRegParam(objs, a) THEN 1 ELSE 0)]]
+        IF own[a] # own[b] \/ ~ objs[own[a]].reg THEN 0
+        ELSE (IF a = b THEN kinds[own[a]].z ELSE 0)
+             + kinds[own[a]].c * PathLap(objs[own[a]].p, a - OffP(objs, own[a]), b - OffP(objs, own[a]))]]
+Grams(P) == { [a \in 1 .. P |-> [b \in 1 .. P |-> SumOver(1 .. NRows, LAMBDA t : mm[t][a] * mm[t][b])]] :
+                mm \in [1 .. NRows -> [1 .. P -> MVals]] }
 InvFamily ==
-    UNION { { [objs |-> lay, H |-> HOf(lay, kk), FH |-> FHOf(lay, kk, mm), s |-> [c \in 1 .. TotalP(lay) |-> sp[c]]] :
-                mm \in [1 .. NRows -> [1 .. TotalP(lay) -> MVals]],
-                kk \in [RegObjs(lay) -> RegKinds],
-                sp \in SPats } : lay \in Layouts }
+    UNION { LET P == TotalP(lay)
+                own == [c \in 1 .. P |-> ObjOfP(lay, c)]
+                gs == Grams(P)
+            IN UNION { LET h == HOf(lay, kk, own) IN
+                       { [objs |-> lay, H |-> h,
+                          FH |-> [a \in 1 .. P |-> [b \in 1 .. P |->
+                                    g[a][b] + h[a][b] + (IF a = b /\ ~ lay[own[a]].reg THEN 1 ELSE 0)]],
+                          s |-> [c \in 1 .. P |-> sp[c]]] : g \in gs, sp \in SPats }
+                     : kk \in [RegObjs(lay) -> RegKinds] }
+          : lay \in Layouts }
 NoInv == [objs |-> << >>, H |-> << >>, FH |-> << >>, s |-> << >>]
 
 -----------------------------------------------------------------------------
